@@ -5,7 +5,7 @@ import types
 from fractions import Fraction
 import z3
 
-from .values import (Choice, SymList, Obj, OPAQUE, Unsupported, is_z3, is_bv, is_zint, is_zreal, is_zbool, is_fp,
+from .values import (SymStr, Choice, SymList, Obj, OPAQUE, Unsupported, is_z3, is_bv, is_zint, is_zreal, is_zbool, is_fp,
                      is_pyint, zand, zor, znot, zbool, tobool_const)
 from .ctx import PyRaise, Killed, NoFork
 from .src import ModuleInfo, ShapeMismatch
@@ -84,6 +84,10 @@ class ExprMixin:
                 return self.norm(ast.literal_eval(vals[0]))
             if len(vals) == 1 and isinstance(vals[0], ast.Name) and vals[0].id in mod.functions:
                 return self.module_global(mod, vals[0].id, node, depth + 1)      # alias: sub = subtract
+            if mod.repo is None and len(vals) == 1:
+                # specification module: constant expressions are evaluated from their text
+                from .interp_stmt import Frame
+                return self.eval(Frame(mod, None, None, {}), vals[0])
             return self.convert_live(getattr(self._live(mod), name))
         if name in mod.imports:
             mname, attr = mod.imports[name]
@@ -229,7 +233,13 @@ class ExprMixin:
         if op == "+" and isinstance(a, (list, tuple)) and isinstance(b, (list, tuple)):
             return a + b
         if op == "%" and isinstance(a, str):
+            if a in ("%x", "%X") and self.ops.is_intlike(b):
+                return self.str_hex(b, w, prefix=False, upper=(a == "%X"))
             return OPAQUE
+        if op == "+" and isinstance(a, (str, SymStr)) and isinstance(b, (str, SymStr)):
+            ca = [ord(ch) for ch in a] if isinstance(a, str) else list(a.chars)
+            cb = [ord(ch) for ch in b] if isinstance(b, str) else list(b.chars)
+            return SymStr(ca + cb)
         if a is OPAQUE or b is OPAQUE:
             return OPAQUE
         return self.ops.binop(op, a, b, w)
@@ -384,7 +394,7 @@ class ExprMixin:
             if base.modinfo is not None:
                 return self.module_global(base.modinfo, attr, node)
             return self.convert_external(getattr(base.live, attr))
-        if isinstance(base, (list, dict, str, tuple, SymList, set)):
+        if isinstance(base, (list, dict, str, tuple, SymList, set, SymStr)):
             return BoundMethod(base, attr)
         if isinstance(base, ClassRef) and base.modinfo is not None:
             f = self.find_method(base.modinfo, base.name, attr)
@@ -452,6 +462,8 @@ class ExprMixin:
             st = self.eval(frame, node.slice.step) if node.slice.step is not None else None
             if isinstance(base, (list, tuple, str)) and all(x is None or is_pyint(x) for x in (lo, hi, st)):
                 return base[slice(lo, hi, st)]
+            if isinstance(base, SymStr) and all(x is None or is_pyint(x) for x in (lo, hi, st)):
+                return SymStr(base.chars[slice(lo, hi, st)])
             raise Unsupported("slice at %s" % w)
         idx = self.eval(frame, node.slice)
         return self.index(base, idx, w)
